@@ -648,6 +648,20 @@ def calibrate(ctx) -> None:
             raise HarnessError("reference verification rejects the signature of stored credential %s" % name)
         if L.dc_signature_ok(m, m["signed"][:-1] + bytes([m["signed"][-1] ^ 1])):
             raise HarnessError("reference verification accepts a modified stored credential %s" % name)
+    # the faster ECDSA verification of dat_layout against the plain one of pk.py (valid, wrong message, swapped r/s)
+    from cryptography.hazmat.primitives import hashes  # noqa: PLC0415
+    from cryptography.hazmat.primitives.asymmetric import ec, utils  # noqa: PLC0415
+    from vf.ref import pk  # noqa: PLC0415
+
+    for curve, h in (("secp256r1", hashes.SHA256()), ("secp384r1", hashes.SHA384()), ("secp521r1", hashes.SHA512())):
+        for d in (1, 0xC15C15, pk.CURVES[curve].n - 2):
+            key, (x, y) = K.ec_key(curve, d), K.ec_public_xy(curve, d)
+            r, s_ = utils.decode_dss_signature(key.sign(b"calibration", ec.ECDSA(h)))
+            for rr, ss, msg in ((r, s_, b"calibration"), (r, s_, b"calibratioN"), (s_, r, b"calibration")):
+                a = L.ecdsa_verify(pk.CURVES[curve], (x, y), rr, ss, msg, L.HASH_BY_CURVE[curve])
+                b = pk.ecdsa_verify(pk.CURVES[curve], (x, y), rr, ss, msg, L.HASH_BY_CURVE[curve])
+                if a != b or a != (msg == b"calibration" and rr == r):
+                    raise HarnessError("ECDSA reference verifications disagree on %s" % curve)
     # own database walk against SPSDK's database
     from spsdk.utils.database import DatabaseManager, get_db, get_families  # noqa: PLC0415
 
@@ -673,6 +687,6 @@ def calibrate(ctx) -> None:
 def parts(ctx):
     _STATE["work"] = ctx.work
     return [
-        HypPart("dc", lambda: _dc_strategy(ctx.tier), run_dc, {"quick": 1600, "thorough": 48000}),
-        HypPart("elev2", lambda: _elev2_strategy(ctx.tier), run_elev2, {"quick": 320, "thorough": 9600}),
+        HypPart("dc", lambda: _dc_strategy(ctx.tier), run_dc, {"quick": 1200, "thorough": 48000}),
+        HypPart("elev2", lambda: _elev2_strategy(ctx.tier), run_elev2, {"quick": 240, "thorough": 9600}),
     ]
